@@ -156,21 +156,32 @@ impl Decoder<'_> {
     /// null character (`\0`), or reaching the limit or end of the stream
     /// and erroring out.
     pub fn string(&mut self) -> Result<String> {
-        // If we have a limit, then don't search further than we need to.
-        let slice = match self.limit {
-            Some(limit) => &self.bytes[self.offset..(self.offset + limit * WORD_NUM_BYTES)],
-            None => &self.bytes[self.offset..],
+        // The bytes still available in the stream.
+        let rest = &self.bytes[self.offset.min(self.bytes.len())..];
+        // If we have a limit, then don't search further than we need to
+        // (and never past the end of the stream).
+        let (slice, limited) = match self.limit {
+            Some(limit) => match limit.checked_mul(WORD_NUM_BYTES) {
+                Some(window) if window <= rest.len() => (&rest[..window], true),
+                _ => (rest, false),
+            },
+            None => (rest, false),
         };
         // Find the null terminator.
-        let first_null_byte = slice.iter().position(|&c| c == 0).ok_or(match self.limit {
-            Some(_) => Error::LimitReached(self.offset + slice.len()),
-            None => Error::StreamExpected(self.offset),
+        let first_null_byte = slice.iter().position(|&c| c == 0).ok_or(if limited {
+            Error::LimitReached(self.offset + slice.len())
+        } else {
+            Error::StreamExpected(self.offset)
         })?;
         // Validate the string is utf8.
         let result = str::from_utf8(&slice[..first_null_byte])
             .map_err(|e| Error::DecodeStringFailed(self.offset, format!("{}", e)))?;
         // Round up consumed words to include null byte(s).
         let consumed_words = (first_null_byte / WORD_NUM_BYTES) + 1;
+        // The word holding the null terminator must lie inside the stream.
+        if consumed_words * WORD_NUM_BYTES > rest.len() {
+            return Err(Error::StreamExpected(self.offset));
+        }
         self.offset += consumed_words * WORD_NUM_BYTES;
         if let Some(ref mut limit) = self.limit {
             // This is guaranteed to be enough due to the slice limit above.
